@@ -247,6 +247,14 @@ def run_model(ops):
     return out
 
 
+_COV = [0]
+
+
+def _cov_counter():
+    _COV[0] += 1
+    return _COV[0]
+
+
 def run_impl(scratch, ops, backend="py", extra_env=None, timeout=3000):
     """Run the real code (scratch copy) on the op stream in a child interpreter."""
     env = dict(os.environ)
@@ -260,7 +268,14 @@ def run_impl(scratch, ops, backend="py", extra_env=None, timeout=3000):
     if extra_env:
         env.update(extra_env)
     data = "\n".join(ops) + "\n"
-    r = subprocess.run([PY, WORKER, backend], input=data, capture_output=True, text=True, env=env, timeout=timeout)
+    cmd = [PY, WORKER, backend]
+    covdir = os.environ.get("VERIF_COVERAGE")
+    if covdir and backend == "py":
+        # development aid (harness/covreport.py): line+branch coverage of the scratch copy's yarl/ under the op stream
+        os.makedirs(covdir, exist_ok=True)
+        cmd = [PY, "-m", "coverage", "run", "--branch", "--data-file=%s/cov.%d.%d" % (covdir, os.getpid(), _cov_counter()),
+               "--include=%s/yarl/*" % scratch.dir, WORKER, backend]
+    r = subprocess.run(cmd, input=data, capture_output=True, text=True, env=env, timeout=timeout)
     if r.returncode != 0:
         return None, f"worker({backend}) exited rc={r.returncode}: {r.stderr[-1500:]}"
     out = r.stdout.split("\n")
